@@ -733,6 +733,80 @@ theorem id_written_iff (i b s v ks) (m : Meta) :
     idOf (toJson (.node i b s v ks m)) = if m.gen then none else some i := by
   cases hc : m.cls <;> simp only [toJson, hc, idJ] <;> (try split) <;> rfl
 
+/-! ## … and defaults: what `cc.Any` / `cc.Xor` write as `default` is what the configurator reads back -/
+
+theorem mt_mkAtLeast (v : Int) (ks : List P) (var sgn cls) :
+    (mkAtLeast v ks var sgn cls).mt.dflt = [] ∧ (mkAtLeast v ks var sgn cls).isLeaf = false := by
+  unfold mkAtLeast; cases var <;> simp [P.mt, isLeaf]
+
+theorem dflt_setDflt (p : P) (d) (h : p.isLeaf = false) : (setDflt p d).mt.dflt = d ∧ (setDflt p d).isLeaf = false := by
+  cases p with
+  | leaf => simp [isLeaf] at h
+  | node => simp [setDflt, P.mt, isLeaf]
+
+theorem dflt_mkCcAny (args : List (Bool × P)) (dflt) (oid) : (mkCcAny args dflt oid).mt.dflt = dflt := by
+  have hp : ∀ a, (setDflt (mkAny a oid .ccAny) dflt).mt.dflt = dflt := fun a =>
+    (dflt_setDflt _ dflt (by unfold mkAny; exact (mt_mkAtLeast _ _ _ _ _).2)).1
+  unfold mkCcAny
+  cases dflt with
+  | nil => exact hp args
+  | cons d ds =>
+      obtain ⟨d1, d2⟩ := d
+      simp only
+      split
+      · exact hp args
+      · split
+        · exact hp args
+        · exact hp _
+
+theorem dflt_mkCcXor (args : List (Bool × P)) (dflt) (oid) : (mkCcXor args dflt oid).mt.dflt = dflt := by
+  have hx : (setDflt (mkXor args oid .ccXor) dflt).mt.dflt = dflt ∧ (setDflt (mkXor args oid .ccXor) dflt).isLeaf = false :=
+    dflt_setDflt _ dflt (by unfold mkXor mkAll; exact (mt_mkAtLeast _ _ _ _ _).2)
+  unfold mkCcXor
+  cases dflt with
+  | nil => exact hx.1
+  | cons d ds =>
+      simp only
+      generalize hxe : setDflt (mkXor args oid .ccXor) (d :: ds) = x at hx
+      cases x with
+      | leaf => simp [isLeaf] at hx
+      | node i b s v ks m => simpa [P.mt] using hx.1
+
+/-- **defaults are kept**: whenever the configurator reads back what a `cc.Any` / `cc.Xor` node wrote, the model it builds
+    carries the same `default` -/
+theorem defaults_kept (i b s v ks) (m : Meta) (hc : m.cls = .ccAny ∨ m.cls = .ccXor) :
+    ∀ a, PJ.toAst true (toJson (.node i b s v ks m)) = some a → a.build.mt.dflt = m.dflt := by
+  intro a ha
+  rcases hc with hc | hc
+  · simp only [toJson, hc] at ha
+    split at ha
+    · by_cases hd : m.dflt = []
+      · simp [PJ.toAst, hd] at ha
+        obtain ⟨as, _, rfl⟩ := ha
+        simp only [Ast.build, mkAny]; rw [hd]; exact (mt_mkAtLeast _ _ _ _ _).1
+      · have : m.dflt.isEmpty = false := by cases hm : m.dflt <;> simp_all
+        simp [PJ.toAst, this] at ha
+        obtain ⟨as, _, rfl⟩ := ha
+        simp only [Ast.build]; exact dflt_mkCcAny _ _ _
+    · by_cases hd : m.dflt = []
+      · simp [PJ.toAst, hd] at ha
+        obtain ⟨as, _, rfl⟩ := ha
+        simp only [Ast.build, mkAny]; rw [hd]; exact (mt_mkAtLeast _ _ _ _ _).1
+      · have : m.dflt.isEmpty = false := by cases hm : m.dflt <;> simp_all
+        simp [PJ.toAst, this] at ha
+        obtain ⟨as, _, rfl⟩ := ha
+        simp only [Ast.build]; exact dflt_mkCcAny _ _ _
+  · simp only [toJson, hc] at ha
+    split at ha
+    · simp [PJ.toAst] at ha
+      obtain ⟨as, _, rfl⟩ := ha
+      simp only [Ast.build]; exact dflt_mkCcXor _ _ _
+    · rename_i hd
+      have hd' : m.dflt = [] := by simpa using hd
+      simp [PJ.toAst] at ha
+      obtain ⟨as, _, rfl⟩ := ha
+      simp only [Ast.build]; rw [hd']; exact dflt_mkCcXor _ _ _
+
 /-- non-vacuity / regression witness of F16a: value 0 with an explicit + sign keeps its meaning -/
 example :
     let t : P := .node "N" ⟨0,1⟩ 1 0 [.leaf "a" ⟨0,1⟩] { cls := .atLeast }
@@ -768,5 +842,13 @@ example :
   simp only [FragN, FragNL, and_true]
   refine ⟨Or.inr (Or.inr (Or.inr (Or.inr (Or.inr (Or.inl ⟨by simp, by simp, by simp, ?_⟩))))), by simp⟩
   exact ⟨_, _, rfl, Or.inl ⟨rfl, rfl⟩⟩
+
+/-- non-vacuity of `defaults_kept`: a defaulted `cc.Any` as held (default item next to the tagged non-default branch) is read
+    back by the configurator's class map, with its default -/
+example :
+    let inner : P := .node "H" ⟨0,1⟩ 1 1 [.leaf "b" ⟨0,1⟩, .leaf "c" ⟨0,1⟩] { cls := .any, gen := true, prio := some (-2) }
+    let t : P := .node "A" ⟨0,1⟩ 1 1 [.leaf "a" ⟨0,1⟩, inner] { cls := .ccAny, dflt := [("a", ⟨0,1⟩)] }
+    PJ.toAst true (toJson t) = some (.ccAny [.var "a" ⟨0,1⟩, .var "b" ⟨0,1⟩, .var "c" ⟨0,1⟩] [("a", ⟨0,1⟩)] (some "A")) := by
+  simp [toJson, ccAnyProps, toJsonL, leafJ, idJ, PJ.toAst, PJ.toAstL, P.mt]
 
 end Puan.C16
